@@ -46,6 +46,7 @@ type c17Peer struct {
 	got     []byte // everything the server wrote to it
 	closed  bool   // EOF / reset seen
 	sent    []byte // everything we wrote
+	first   []byte // our first write
 	selfEnd bool   // we closed it ourselves
 }
 
@@ -80,6 +81,9 @@ func c17Dial(port int, idx int) *c17Peer {
 func (p *c17Peer) write(b []byte) {
 	if p.conn == nil {
 		return
+	}
+	if len(p.sent) == 0 {
+		p.first = append([]byte(nil), b...)
 	}
 	p.sent = append(p.sent, b...)
 	p.conn.SetWriteDeadline(time.Now().Add(2 * time.Second))
@@ -609,6 +613,18 @@ func c17Sequential(c *ctx, seed int64, forced []int) *c17Line {
 	}
 	result := strings.Join(obs, ",") + "|a=" + ad + "|buf=" + hx(sc.log) + "|tc=" + tc + "|w=" + writer + "|act=" + act
 	sc.oracles("sequential")
+	// driven one event at a time the handler's single Read returns the first write (at most 100 bytes of it)
+	for _, p := range sc.peers {
+		fr := p.first
+		if len(fr) > 100 {
+			fr = fr[:100]
+		}
+		ch, _ := trzsz.VerifGetHelloConstant(uid, srv.Port)
+		if g, _ := p.state(); len(g) > 0 && string(fr) != ch {
+			c.violate("tunnel:inexact-greeting-answered:"+c17KindName[sc.kinds[p.idx]], "a connection whose first read was not exactly the hello was answered",
+				fmt.Sprintf("conn=%d first write=%q :: %s", p.idx, c17Short(p.first), sc.describe()))
+		}
+	}
 	if tc == "1" && bytes.Contains(sc.log, []byte("<IB1>")) {
 		c.violate("tunnel:inband-after-connected", "an in-band chunk reached the transfer's buffer although tunnelConnected was set", sc.describe())
 	}
